@@ -102,7 +102,7 @@ def serve_element(req: Dict[str, Any], registry: List[Dict[str, Any]], behaviour
     if k == 'echo':
         return Element(rid, 'result', {'method': mspec['name'], 'args': copy.deepcopy(bound)}, execution, f'{kind}/succeeds')
     if k == 'return':
-        return Element(rid, 'result', copy.deepcopy(b['value']), execution, f'{kind}/succeeds')
+        return Element(rid, 'result', jg.py_wire(b['value']), execution, f'{kind}/succeeds')
     if k == 'raise_rpc':
         return Element(rid, 'app-error', error_wire(b['error'], CLASS_DEFAULTS), execution, f'{kind}/raises-protocol-error')
     if k == 'raise_exc':
